@@ -12,6 +12,15 @@ from harness.props import rtdrv, c10, ruledrv
 
 def rule_recipe(rng):
     rr = c10.spec_rule_recipe(rng)
+    if rng.random() < 0.3:
+        # conditions of the whole C11 fragment: data-path arguments (concrete and not, with a datum and / or a
+        # multiplicity modifier, nested in list / mapping arguments), literal path-like mappings
+        doc = gen.document(rng, depth=3, strish=0.8)
+        for _ in range(12):
+            t = rtdrv.c11_tree(rng, rng.choice([0, 0, 1, 2]), doc)
+            if rtdrv.kinds_of(t) <= {"value"}:
+                rr = dict(rr, cond=t)
+                break
     return rr
 
 
